@@ -372,6 +372,37 @@ var c17Params = map[string][]string{
 
 var noInline = []string{"<none>"}
 
+// layoutRule: the byte layout of each named derivation function equals the pinned
+// format (C17.R1; reused by C01/C08/C10 for the derivations they depend on).
+func layoutRule(c *Ctx, rule string, names []string) {
+	for _, name := range names {
+		fn := c.Func(hostTypes, name)
+		o := c.Ob(rule, name+": layout equals the pinned format "+c17Pinned[name])
+		paths := c.Paths(fn, PO{Params: c17Params[name], OnlyInline: noInline})
+		for _, p := range paths {
+			o.Paths++
+			o.Sites++
+			o.Facts += p.NFacts()
+			if p.Panic || len(p.Ret) != 1 {
+				o.Fail(c.W.Pos(fn.Pos()), "unexpected path shape (panic or arity)", c.Dump(p, -1))
+				continue
+			}
+			got, err := layoutOf(p.Ret[0])
+			if err != nil {
+				o.Undecide("layout not derivable: " + err.Error() + " in " + trunc(p.Ret[0].Key(), 200))
+				continue
+			}
+			o.Note(got)
+			if got != c17Pinned[name] {
+				o.Fail(c.W.Pos(fn.Pos()), "layout is "+got, c.Dump(p, -1))
+			}
+		}
+		if len(paths) != 1 {
+			o.Fail(c.W.Pos(fn.Pos()), fmt.Sprintf("%d paths (a straight-line derivation is expected; data-dependent layouts are not a format)", len(paths)), nil)
+		}
+	}
+}
+
 func propC17(c *Ctx) {
 	c.Clauses = append(c.Clauses,
 		"byte layouts of the leaf hash, output root, L2 denom and bridge address, re-derived from the source by abstract interpretation (E8), equal the pinned independent layout table",
@@ -382,32 +413,7 @@ func propC17(c *Ctx) {
 	c.Assumptions = append(c.Assumptions, "A1", "A5", "A10")
 
 	c.Rule("C17.R1", func() {
-		for _, name := range sortedKeys(c17Pinned) {
-			fn := c.Func(hostTypes, name)
-			o := c.Ob("C17.R1", name+": layout equals the pinned format "+c17Pinned[name])
-			paths := c.Paths(fn, PO{Params: c17Params[name], OnlyInline: noInline})
-			for _, p := range paths {
-				o.Paths++
-				o.Sites++
-				o.Facts += p.NFacts()
-				if p.Panic || len(p.Ret) != 1 {
-					o.Fail(c.W.Pos(fn.Pos()), "unexpected path shape (panic or arity)", c.Dump(p, -1))
-					continue
-				}
-				got, err := layoutOf(p.Ret[0])
-				if err != nil {
-					o.Undecide("layout not derivable: " + err.Error() + " in " + trunc(p.Ret[0].Key(), 200))
-					continue
-				}
-				o.Note(got)
-				if got != c17Pinned[name] {
-					o.Fail(c.W.Pos(fn.Pos()), "layout is "+got, c.Dump(p, -1))
-				}
-			}
-			if len(paths) != 1 {
-				o.Fail(c.W.Pos(fn.Pos()), fmt.Sprintf("%d paths (a straight-line derivation is expected; data-dependent layouts are not a format)", len(paths)), nil)
-			}
-		}
+		layoutRule(c, "C17.R1", sortedKeys(c17Pinned))
 		digestParamRule(c, "C17.R1")
 	})
 
